@@ -13,6 +13,7 @@ echo "|---|---|---|---|---|"
 } > $OUT
 for R in refactors/C*-R*; do
   [ -f "$R/patch.diff" ] || continue
+  if grep -q "^$(basename $R) " refactors/STALE.txt 2>/dev/null; then echo "| $(basename $R) | - | stale (see refactors/STALE.txt) | - | - |" >> $OUT; continue; fi
   P=$(basename $R | cut -d- -f1)
   for C in $P ${EXTRA[$P]}; do
     LOG=$(SKIP_TESTS=1 TAIL=30 VERIF_JOBS=${VERIF_JOBS:-10} tools/mutant_run.sh "$R/patch.diff" "$C" quick 2>&1)
